@@ -89,6 +89,14 @@ package samlsp
 
 //@ contract (CookieRequestTracker).GetTrackedRequests
 //@ requires[cfg] r: r != nil && t.Codec != nil
+//@ -- every tracked request returned was decoded by the codec from a cookie of this request whose name is the prefix
+//@ -- followed by the index it carries - nothing else is ever in the list (in particular no blank entries)
+//@ derive@call[C04,C17] append #1 (dst []TrackedRequest, src []TrackedRequest) uses cookie *http.Cookie, trackedRequest *TrackedRequest, err error only_decoded_cookies:
+//@    len(src) == 1 && err == nil && trackedRequest != nil && src[0] == *trackedRequest && cookie != nil &&
+//@    DecodedTracked(t.Codec, cookie.Value, *trackedRequest) && cookie.Name == t.NamePrefix + trackedRequest.Index |- TrackedHere(t.Codec, r, src[0])
+//@ loop 1 vars rv []TrackedRequest
+//@ invariant[C04,C17] all_tracked: forall(0, len(rv), func(k int) bool { return TrackedHere(t.Codec, r, rv[k]) })
+//@ ensures[C04,C17] all_tracked: forall(0, len(result), func(k int) bool { return TrackedHere(t.Codec, r, result[k]) })
 
 //@ -- ------------------------------------------------------------------------------------------
 //@ -- the middleware handlers
